@@ -97,6 +97,16 @@ func runC15(t *testing.T, tape *sim.Tape, tier string) *Outcome {
 		}
 		ops = append(ops, op)
 	}
+	// a quarter of the TLS runs begin with a Start that fails because the certificate is unusable, followed by Stop:
+	// whatever that Start had opened must be released; the configuration is repaired before the drawn calls run
+	brokenTLS := tlsOn && tape.Draw(4, "brokentls") == 3
+	var goodCert []byte
+	if brokenTLS {
+		goodCert = cl.Srv.ServerCert
+		cl.Srv.ServerCert = []byte("-----BEGIN CERTIFICATE-----\nbm90IGEgY2VydGlmaWNhdGU=\n-----END CERTIFICATE-----\n")
+		ops = append([]string{"Start", "Stop"}, ops...)
+		o.stat("runs_starting_with_unusable_certificate", 1)
+	}
 	cl.lifecycle(ops...)
 	addr := addrOf(plainPort)
 	nclients := tape.Draw(5, "nclients")
@@ -233,6 +243,12 @@ func runC15(t *testing.T, tape *sim.Tape, tier string) *Outcome {
 		for opsSeen < cl.lifeDone {
 			op, err := ops[opsSeen], cl.lifeErr[opsSeen]
 			opsSeen++
+			if brokenTLS && opsSeen == 1 && err == nil {
+				o.violate("c15:start-with-unusable-certificate-succeeded", "Start returned nil although the server certificate cannot be parsed")
+			}
+			if brokenTLS && opsSeen == 2 {
+				cl.Srv.ServerCert = goodCert
+			}
 			inOp = false
 			for _, t := range cl.S.Parked() {
 				if t.Held {
@@ -371,7 +387,7 @@ func init() {
 	register(&Check{
 		ID: "C15", Bubble: true, Run: runC15,
 		Runs:   map[string]int{"quick": 16000, "thorough": 1000000},
-		Rule:   "a case is one run: a lifecycle task executing 1..6 drawn calls from {Start, Stop, Restart} (ill-ordered sequences included), 0..4 clients that dial, PING, idle, close or reset at drawn moments, and the accept loops and connection goroutines the server spawns, interleaved by the seeded scheduler at simulated Listen/Accept/Read and at the tagged yield points (start.opened, stop.mid, stop.closed, accept.entry, accept.exit, conn.register, conn.deregister, connmgr.stopped, connmgr.snapshot; each enabled per run by the swarm); half of the runs hold a drawn set of server tasks parked until the call in progress has returned; a quarter of the runs that end with a running server add CONFIG SET port/tls-port (0, non-numeric, negative, another port) from a client followed by Stop; after each call returns the system is drained and the promised state is probed (dial+PING; bind probe, closed sockets, parked tasks, goroutine profile, registry); distinct = distinct event-log hashes",
+		Rule:   "a case is one run: a lifecycle task executing 1..6 drawn calls from {Start, Stop, Restart} (ill-ordered sequences included; a quarter of the TLS runs are preceded by a Start that fails on an unusable certificate and a Stop), 0..4 clients that dial, PING, idle, close or reset at drawn moments, and the accept loops and connection goroutines the server spawns, interleaved by the seeded scheduler at simulated Listen/Accept/Read and at the tagged yield points (start.opened, stop.mid, stop.closed, accept.entry, accept.exit, conn.register, conn.deregister, connmgr.stopped, connmgr.snapshot; each enabled per run by the swarm); half of the runs hold a drawn set of server tasks parked until the call in progress has returned; a quarter of the runs that end with a running server add CONFIG SET port/tls-port (0, non-numeric, negative, another port) from a client followed by Stop; after each call returns the system is drained and the promised state is probed (dial+PING; bind probe, closed sockets, parked tasks, goroutine profile, registry); distinct = distinct event-log hashes",
 		Real:   []string{"redis.Server Start/Stop/Restart/open/close, accept loops, connection goroutines, ConnManager"},
 		Stub:   []string{"network: simulated listeners (EADDRINUSE while bound) and connections", "handler: reference store"},
 		Assume: []string{"a goroutine that is merely not scheduled yet is not a leak: leaks are judged after draining every enabled task", "half of the runs enable the TLS port as well (real crypto/tls clients, some stalled in their handshake)"},
